@@ -211,7 +211,7 @@ def coq_eval(tag, body, timeout=900):
     return p.stdout
 
 
-def coq_eval_parallel(tag, bodies, timeout=1800, jobs=14):
+def coq_eval_parallel(tag, bodies, timeout=1800, jobs=8):
     """Evaluate several cases files concurrently; returns list of stdouts."""
     from concurrent.futures import ThreadPoolExecutor
 
